@@ -12,7 +12,7 @@ Model of the file-naming code that property C15 is anchored in:
 Parameters (results logged from the real run and passed in; the theorems are
 stated for every value unless a hypothesis names them):
   `tbl`     Unicode case mapping of one non-ASCII code point (`chr(c).lower()` / `.upper()`)
-  `digest`  `hashlib.sha1(..).hexdigest()` of a name that is truncated
+  `sha`     `hashlib.sha1(x.encode('utf8')).hexdigest()` as a function of the name `x` that is truncated
   `Ext`     verdicts of `urllib.parse._check_bracketed_host` / `_checknetloc`
   `m1 m2`   the two regular-expression matches of `parse_content_disposition`
 
@@ -108,9 +108,9 @@ def winTrailing (cfg : SafeCfg) (s : Str) : Except PyExc Str :=
   else .ok s
 
 /-- `if max_length and len(new) > max_length: new[:max(0, max_length - 8)] + sha1hex[:8]` -/
-def truncate (cfg : SafeCfg) (digest : Str) (s : Str) : Str :=
+def truncate (cfg : SafeCfg) (sha : Str → Str) (s : Str) : Str :=
   if cfg.maxLen ≠ 0 ∧ (s.length : Int) > cfg.maxLen then
-    s.take (cfg.maxLen - 8).toNat ++ digest.take 8
+    s.take (cfg.maxLen - 8).toNat ++ (sha s).take 8
   else s
 
 /-- `str.lower` / `str.upper` of one code point; non-ASCII through the table -/
@@ -123,13 +123,19 @@ def foldChar (tbl : Nat → Str) (m : CaseMode) (c : Nat) : Str :=
 def foldStr (tbl : Nat → Str) (m : CaseMode) (s : Str) : Str := s.flatMap (foldChar tbl m)
 
 /-- `wpull.path.safe_filename` -/
-def safeFilename (cfg : SafeCfg) (tbl : Nat → Str) (digest : Str) (name : Str) : Except PyExc Str :=
+def safeFilename (cfg : SafeCfg) (tbl : Nat → Str) (sha : Str → Str) (name : Str) : Except PyExc Str :=
   match quoteName cfg name with
   | .error e => .error e
   | .ok q =>
     match winTrailing cfg q with
     | .error e => .error e
-    | .ok w => .ok (foldStr tbl cfg.case (truncate cfg digest w))
+    | .ok w => .ok (foldStr tbl cfg.case (truncate cfg sha w))
+
+/-- the name whose SHA-1 `safe_filename` would take (used by the driver to key the logged digests) -/
+def preTrunc (cfg : SafeCfg) (name : Str) : Option Str :=
+  match quoteName cfg name with
+  | .error _ => none
+  | .ok q => match winTrailing cfg q with | .error _ => none | .ok w => some w
 
 /-! ### urllib.parse.urlsplit, `.hostname`, `.port` -/
 
@@ -153,9 +159,14 @@ def isAsciiAlpha (c : Nat) : Bool := isAsciiUpper c || isAsciiLower c
 /-- `scheme_chars` -/
 def isSchemeChar (c : Nat) : Bool := isAsciiAlpha c || isAsciiDigit c || c == 43 || c == 45 || c == 46
 
+/-- longest prefix satisfying `p`, and the rest -/
+def spanP (p : Nat → Bool) : Str → Str × Str
+  | [] => ([], [])
+  | c :: t => if p c then ((c :: (spanP p t).1), (spanP p t).2) else ([], c :: t)
+
 /-- `(before, found, after)` of the first `sep` -/
 def cut1 (s : Str) (sep : Nat) : Str × Bool × Str :=
-  match s.span (· != sep) with
+  match spanP (· != sep) s with
   | (a, []) => (a, false, [])
   | (a, _ :: b) => (a, true, b)
 
@@ -168,22 +179,30 @@ def splitScheme (url : Str) : Str × Str :=
     | c :: _ => if isAsciiAlpha c && pre.all isSchemeChar then (pre.map asciiLower, rest) else ([], url)
   | _ => ([], url)
 
-def urlsplit (ext : Ext) (url0 : Str) : Except PyExc Split :=
-  let url := (url0.dropWhile (· ≤ 32)).filter (fun c => c != 9 && c != 10 && c != 13)
-  let (scheme, url) := splitScheme url
-  let (netloc, url) :=
+/-- `url.lstrip(C0 and space)`, then tab / CR / LF removed -/
+def cleanUrl (url : Str) : Str :=
+  (url.dropWhile (· ≤ 32)).filter (fun c => c != 9 && c != 10 && c != 13)
+
+/-- `urlsplit` after the scheme has been cut off -/
+def urlsplitRest (ext : Ext) (scheme url : Str) : Except PyExc Split :=
+  let nu : Str × Str :=
     match url with
-    | 47 :: 47 :: body => body.span (fun c => c != 47 && c != 63 && c != 35)
+    | 47 :: 47 :: body => spanP (fun c => c != 47 && c != 63 && c != 35) body
     | _ => ([], url)
+  let netloc := nu.1
   let ob := netloc.contains 91
   let cb := netloc.contains 93
   if ob != cb then .error .ValueError
   else if ob && cb && !ext.bracketOk then .error .ValueError
   else
-    let (url, _, _) := cut1 url 35
-    let (path, _, query) := cut1 url 63
+    let url := (cut1 nu.2 35).1
+    let pq := cut1 url 63
     if !netloc.isEmpty && !netloc.all (· < 128) && !ext.netlocOk then .error .ValueError
-    else .ok ⟨scheme, netloc, path, query⟩
+    else .ok ⟨scheme, netloc, pq.1, pq.2.2⟩
+
+def urlsplit (ext : Ext) (url0 : Str) : Except PyExc Split :=
+  let ss := splitScheme (cleanUrl url0)
+  urlsplitRest ext ss.1 ss.2
 
 /-- the text after the last `sep` (all of `s` if there is none): `s.rpartition(sep)[2]` -/
 def afterLast (s : Str) (sep : Nat) : Str := ((splitOn1 s sep).getLast?).getD []
@@ -191,22 +210,21 @@ def afterLast (s : Str) (sep : Nat) : Str := ((splitOn1 s sep).getLast?).getD []
 /-- `_hostinfo` -/
 def hostinfo (netloc : Str) : Str × Str :=
   let hi := afterLast netloc 64
-  match cut1 hi 91 with
-  | (_, true, bracketed) =>
-    let (h, _, p) := cut1 bracketed 93
-    let (_, _, port) := cut1 p 58
-    (h, port)
-  | _ =>
-    let (h, _, port) := cut1 hi 58
-    (h, port)
+  let br := cut1 hi 91
+  if br.2.1 then
+    let hp := cut1 br.2.2 93
+    (hp.1, (cut1 hp.2.2 58).2.2)
+  else
+    let hp := cut1 hi 58
+    (hp.1, hp.2.2)
 
 /-- `.hostname` (`none` = Python `None`); lower-casing is ASCII only -/
 def hostnameOf (netloc : Str) : Option Str :=
   let h := (hostinfo netloc).1
   if h.isEmpty then none
   else
-    let (a, found, z) := cut1 h 37
-    some (a.map asciiLower ++ (if found then [37] else []) ++ z)
+    let c := cut1 h 37
+    some (c.1.map asciiLower ++ (if c.2.1 then [37] else []) ++ c.2.2)
 
 def digitsVal (s : Str) : Nat := s.foldl (fun a c => a * 10 + (c - 48)) 0
 
@@ -342,16 +360,16 @@ def dirname (p : Str) : Str :=
 
 /-! ### PathNamer.get_filename -/
 
-/-- `[self.safe_filename(part) for part in parts]`, one digest per part;
+/-- `[self.safe_filename(part) for part in parts]`;
 `safe_filename(None)` fails its `assert isinstance(filename, str)`. -/
-def safeAll (cfg : SafeCfg) (tbl : Nat → Str) : List (Option Str) → List Str → Except PyExc (List Str)
-  | [], _ => .ok []
-  | none :: _, _ => .error .AssertionError
-  | some p :: rest, ds =>
-    match safeFilename cfg tbl (ds.head?.getD []) p with
+def safeAll (cfg : SafeCfg) (tbl : Nat → Str) (sha : Str → Str) : List (Option Str) → Except PyExc (List Str)
+  | [] => .ok []
+  | none :: _ => .error .AssertionError
+  | some p :: rest =>
+    match safeFilename cfg tbl sha p with
     | .error e => .error e
     | .ok r =>
-      match safeAll cfg tbl rest ds.tail with
+      match safeAll cfg tbl sha rest with
       | .error e => .error e
       | .ok rs => .ok (r :: rs)
 
@@ -385,17 +403,17 @@ def rawParts (cfg : NamerCfg) (ext : Ext) (isFtp : Bool) (url : Str) : Except Py
       if isFtp then unquoteAll parts else .ok parts
 
 /-- the sanitised components of `get_filename` -/
-def components (cfg : NamerCfg) (tbl : Nat → Str) (ext : Ext) (isFtp : Bool) (digests : List Str)
+def components (cfg : NamerCfg) (tbl : Nat → Str) (sha : Str → Str) (ext : Ext) (isFtp : Bool)
     (url : Str) : Except PyExc (List Str) :=
   match rawParts cfg ext isFtp url with
   | .error e => .error e
-  | .ok parts => safeAll cfg.safe tbl parts digests
+  | .ok parts => safeAll cfg.safe tbl sha parts
 
 /-- `PathNamer.get_filename(url_info)` with `url = url_info.url`,
 `isFtp = (url_info.scheme == 'ftp')` -/
-def getFilename (cfg : NamerCfg) (tbl : Nat → Str) (ext : Ext) (isFtp : Bool) (digests : List Str)
+def getFilename (cfg : NamerCfg) (tbl : Nat → Str) (sha : Str → Str) (ext : Ext) (isFtp : Bool)
     (url : Str) : Except PyExc Str :=
-  match components cfg tbl ext isFtp digests url with
+  match components cfg tbl sha ext isFtp url with
   | .error e => .error e
   | .ok comps => .ok (posixJoin cfg.root comps)
 
@@ -431,7 +449,7 @@ def cdName (m1 m2 : Option Str) : Option Str :=
 /-- `_rename_with_content_disposition`: the new value of `self._filename`.
 `cur` = current `self._filename`, `isHttp` = scheme in (http, https),
 `hasHeader` = the header value is truthy. -/
-def renameCD (cfg : SafeCfg) (tbl : Nat → Str) (digest : Str) (cur : Str) (isHttp hasHeader : Bool)
+def renameCD (cfg : SafeCfg) (tbl : Nat → Str) (sha : Str → Str) (cur : Str) (isHttp hasHeader : Bool)
     (m1 m2 : Option Str) : Except PyExc Str :=
   if cur.isEmpty || !isHttp || !hasHeader then .ok cur
   else
@@ -440,7 +458,7 @@ def renameCD (cfg : SafeCfg) (tbl : Nat → Str) (digest : Str) (cur : Str) (isH
     | some f =>
       if f.isEmpty then .ok cur
       else
-        match safeFilename cfg tbl digest f with
+        match safeFilename cfg tbl sha f with
         | .error e => .error e
         | .ok n => .ok (joinOne (dirname cur) n)
 
